@@ -129,14 +129,14 @@ Qed.
 Lemma ser_graph_fuel : forall m irv ig, (igdepth ig <= m)%nat -> ser_graph m irv ig = ser_graph (igdepth ig) irv ig.
 Proof. intros m irv ig H. apply ser_graph_fuel_gen; [exact H|lia]. Qed.
 
-Lemma ser_function_fuel : forall m m' irv f, (ifdepth f <= m)%nat -> (ifdepth f <= m')%nat -> ser_function m irv f = ser_function m' irv f.
+Lemma ser_function_gen_fuel : forall m m' create irvo f, (ifdepth f <= m)%nat -> (ifdepth f <= m')%nat -> ser_function_gen m create irvo f = ser_function_gen m' create irvo f.
 Proof.
-  intros m m' irv f Hm Hm'. unfold ifdepth in Hm, Hm'.
+  intros m m' create irvo f Hm Hm'. unfold ifdepth in Hm, Hm'.
   rewrite igdepth_eq in Hm, Hm'.
   assert (AG : forall iv d g', (S d <= m)%nat -> (S d <= m')%nat -> (igdepth g' <= d)%nat ->
                                ser_graph m iv g' = ser_graph m' iv g').
   { intros iv d g' H1 H2 H3. apply ser_graph_fuel_gen; lia. }
-  unfold ser_function. cbv zeta.
+  unfold ser_function_gen. cbv zeta.
   apply res_bind_ext. intros ins.
   assert (EA : forall a, In a (if_attrs f) ->
                  ser_attr (ser_graph m None) a = ser_attr (ser_graph m' None) a).
@@ -147,12 +147,12 @@ Proof.
     cbv beta in D.
     apply (AG None (iattrv_depth igdepth (ia_val a))); lia. }
   assert (EN : forall n, In n (ig_nodes (if_graph f)) ->
-                 ser_node (ser_graph m (Some irv)) (Some irv) n = ser_node (ser_graph m' (Some irv)) (Some irv) n).
+                 ser_node (ser_graph m irvo) irvo n = ser_node (ser_graph m' irvo) irvo n).
   { intros n Hn. apply ser_node_ext. intros a Ha.
     pose proof (nodes_node_depth _ _ Hn) as D1.
     pose proof (node_attr_depth _ _ Ha) as D2.
     apply (attr_agree_depth _ _ (iattrv_depth igdepth (ia_val a))); [|lia].
-    intros g' Hg'. apply (AG (Some irv) (iattrv_depth igdepth (ia_val a))); lia. }
+    intros g' Hg'. apply (AG irvo (iattrv_depth igdepth (ia_val a))); lia. }
   rewrite (mapM_ext_in _ (fun a => if attr_has_value a
                                    then res_bind (ser_attr (ser_graph m' None) a) (fun x => Ok [x])
                                    else Ok []) (if_attrs f)).
@@ -162,6 +162,9 @@ Proof.
   apply res_bind_cong. apply mapM_ext_in. intros n Hn.
   rewrite (EN n Hn). reflexivity.
 Qed.
+
+Lemma ser_function_fuel : forall m m' irv f, (ifdepth f <= m)%nat -> (ifdepth f <= m')%nat -> ser_function m irv f = ser_function m' irv f.
+Proof. intros. unfold ser_function. apply ser_function_gen_fuel; assumption. Qed.
 
 Lemma ser_model_fuel_indep : forall m m' im, (imdepth im <= m)%nat -> (imdepth im <= m')%nat -> ser_model_fuel m im = ser_model_fuel m' im.
 Proof.
